@@ -27,6 +27,11 @@ func LoadStore(db dbm.DB, id types.CommitID, pruning types.PruningOptions, lazyL
 	tree := iavl.NewMutableTree(db, defaultIAVLCacheSize)
 
 	var err error
+	if len(id.Hash) == 0 {
+		// a tree that is empty at the target version has no root node to load lazily
+		// (iavl's LazyLoadVersion panics in GetNode on the empty root hash)
+		lazyLoading = false
+	}
 	if lazyLoading {
 		_, err = tree.LazyLoadVersion(id.Version)
 	} else {
